@@ -75,4 +75,52 @@ theorem mem_opsAt {dist : Dist} {nbrs : Nat → List Nat} {d : Nat} {o : Op} (h 
     · rw [← this]; exact hp
     · exact hc
 
+/-- `_find_smallest_distance_neighbour` returns one of the neighbours. -/
+theorem closest_mem (dist : Dist) : ∀ (nb : List Nat) (m : Nat), closest dist nb = some m → m ∈ nb
+  | [], m, h => by simp [closest] at h
+  | [n], m, h => by
+    rw [closest] at h
+    cases hl : lookup dist n with
+    | none => simp [hl] at h
+    | some dn => simp [hl] at h; simp [h]
+  | n :: n2 :: rest, m, h => by
+    rw [closest] at h
+    cases hl : lookup dist n with
+    | none => simp [hl] at h
+    | some dn =>
+      simp only [hl] at h
+      cases hc : closest dist (n2 :: rest) with
+      | none => simp [hc] at h
+      | some m' =>
+        simp only [hc] at h
+        have ih := closest_mem dist (n2 :: rest) m' hc
+        cases hl2 : lookup dist m' with
+        | none => simp [hl2] at h
+        | some dm =>
+          simp only [hl2] at h
+          by_cases hlt : dm < dn
+          · simp [hlt] at h; subst h; exact List.mem_cons_of_mem _ ih
+          · simp [hlt] at h; subst h; exact List.mem_cons_self
+
+/-- every operation of `canonical_form` absorbs into a neighbour of the split node -/
+theorem canonOps_adjacent (dist : Dist) (nbrs : Nat → List Nat) :
+    ∀ o ∈ canonOps dist nbrs, o.target ∈ nbrs o.node := by
+  intro o ho
+  unfold canonOps at ho
+  rw [List.mem_flatMap] at ho
+  obtain ⟨k, _, hk⟩ := ho
+  exact closest_mem dist _ _ (mem_opsAt hk).2
+
+/-- the operations of a centre move are the hops of the path -/
+theorem mem_moveOps : ∀ (path : List Nat) (o : Op), o ∈ moveOps path →
+    ∃ i, ∃ hi : i + 1 < path.length, o = ⟨path[i], path[i + 1]⟩
+  | [], o, h => by simp [moveOps] at h
+  | [_], o, h => by simp [moveOps] at h
+  | a :: b :: rest, o, h => by
+    simp only [moveOps, List.mem_cons] at h
+    rcases h with rfl | h
+    · exact ⟨0, by simp, rfl⟩
+    · obtain ⟨i, hi, e⟩ := mem_moveOps (b :: rest) o h
+      exact ⟨i + 1, by simpa using hi, by simpa using e⟩
+
 end Ptn.C03
